@@ -234,6 +234,9 @@ def fam_multi_flatten(quick):
         "own+enum+struct": [Field("i32", "own"), Field("En", "e", ["#[serde(flatten)]"]), Field("St", "s", ["#[serde(flatten)]"])],
         "enum-only": [Field("Ei", "e", ["#[serde(flatten)]"])],
         "struct+generic": [Field("St", "a", ["#[serde(flatten)]"]), Field("Gp<i32>", "g", ["#[serde(flatten)]"])],
+        "enum+struct+enum": [Field("Ei", "e", ["#[serde(flatten)]"]), Field("St", "s", ["#[serde(flatten)]"]), Field("Ea", "f", ["#[serde(flatten)]"])],
+        "enum+generic+enum": [Field("Ea", "f", ["#[serde(flatten)]"]), Field("Gp<i32>", "g", ["#[serde(flatten)]"]), Field("Ei", "e", ["#[serde(flatten)]"])],
+        "struct+enum+struct": [Field("St", "s", ["#[serde(flatten)]"]), Field("Ei", "e", ["#[serde(flatten)]"]), Field("Gp<i32>", "g", ["#[serde(flatten)]"])],
         "enum+enum+struct": [Field("Ei", "e", ["#[serde(flatten)]"]), Field("Ea", "f", ["#[serde(flatten)]"]), Field("St", "s", ["#[serde(flatten)]"])],
     }
     for lbl, fields in inners.items():
